@@ -151,6 +151,9 @@ type CheckCtx struct {
 	FieldTypes    []Type
 	NotAllowKey   bool
 	NotAllowValue bool
+	// current is the select field whose expression is being checked. It is
+	// nil while checking an expression no field name can refer to.
+	current Expression
 }
 
 func (c *CheckCtx) GetNamedExpr(name string) (Expression, bool) {
@@ -162,6 +165,42 @@ func (c *CheckCtx) GetNamedExpr(name string) (Expression, bool) {
 		}
 	}
 	return nil, false
+}
+
+// closesCycle reports whether a reference from the select field being
+// checked to the select field target would make that field refer to itself,
+// directly or through other field names.
+func (c *CheckCtx) closesCycle(target Expression) bool {
+	if c.current == nil {
+		return false
+	}
+	return reachesField(target, c.current, map[Expression]bool{})
+}
+
+// reachesField reports whether field expression from is to, or refers to it
+// through field references.
+func reachesField(from, to Expression, seen map[Expression]bool) bool {
+	if from == to {
+		return true
+	}
+	if seen[from] {
+		return false
+	}
+	seen[from] = true
+	found := false
+	from.Walk(func(e Expression) bool {
+		if found {
+			return false
+		}
+		if ref, ok := e.(*FieldReferenceExpr); ok {
+			if reachesField(ref.FieldExpr, to, seen) {
+				found = true
+			}
+			return false
+		}
+		return true
+	})
+	return found
 }
 
 type WalkCallback func(e Expression) bool
